@@ -6,6 +6,7 @@ import QV.Proofs.Front10
 import QV.Proofs.Front11
 import QV.Proofs.A2A6
 import QV.Proofs.A2A7
+import QV.Proofs.A2A8
 import QV.Model.Front
 /-!
 # C01 – Boolean expressions mean what the Python source means
@@ -680,6 +681,17 @@ theorem ast2ast_if_preserved (p : SProg) (hp : okProg p = true) (L : List SStmt)
     (h : (rwSs [] p.body).run (initSt (aargsOf p)) = .ok (L, st)) (ρ : String → Bool) (sv : Sem.SVal)
     (hsem : Sem.semProg ⟨p.args, p.ret, L.map toStmt⟩ ρ = some sv) : execProg p ρ = some sv :=
   rewrite_preserved p hp L st h ρ sv hsem
+
+open QV.A2A in
+/-- **ast2ast_preserved_eq** – both directions: for the programs of `okProg` the fixed-width meaning of the rewritten
+straight-line program *is* the source-level meaning - both undefined, or both defined and equal - under every
+assignment of the argument bits; every nesting depth, every number of iterations.  The converse of
+`ast2ast_if_preserved` (`QV/Proofs/A2A8.lean`: `semW_wrapE_conv`, `assign_sim_conv`, `mlc_stmt` / `mlc_list`,
+`forLoop_mlc`, `body_preserved_conv`) mirrors the first direction. -/
+theorem ast2ast_preserved_eq (p : SProg) (hp : okProg p = true) (L : List SStmt) (st : RSt)
+    (h : (rwSs [] p.body).run (initSt (aargsOf p)) = .ok (L, st)) (ρ : String → Bool) :
+    Sem.semProg ⟨p.args, p.ret, L.map toStmt⟩ ρ = execProg p ρ :=
+  rewrite_preserved_eq p hp L st h ρ
 
 open QV.A2A in
 /-- the list the statement rewriter returns is the result of the whole pass `ast2ast` when the two
